@@ -19,6 +19,24 @@ pub struct NotSend(pub Rc<Cell<u64>>);
 /// Send and Sync.
 #[derive(Clone)]
 pub struct Benign(pub Arc<AtomicU64>);
+/// Send but not Sync, and *cloning writes* through the cell (a clone counter):
+/// the library clones stored keys and edge values on behalf of its callers, so
+/// two threads that merely iterate a shared node race on this payload.
+pub struct CloneMut(pub Cell<u64>);
+impl Clone for CloneMut {
+    fn clone(&self) -> Self {
+        self.0.set(self.0.get().wrapping_add(1));
+        CloneMut(Cell::new(self.0.get()))
+    }
+}
+impl Poke for CloneMut {
+    fn poke(&self) {
+        let _ = self.0.get();
+    }
+}
+pub fn cm(v: u64) -> CloneMut {
+    CloneMut(Cell::new(v))
+}
 
 impl Poke for SendNotSync {
     fn poke(&self) {
@@ -76,3 +94,4 @@ macro_rules! key_impls {
 key_impls!(SendNotSync, |x: &SendNotSync| x.0.get());
 key_impls!(NotSend, |x: &NotSend| x.0.get());
 key_impls!(Benign, |x: &Benign| x.0.load(Ordering::SeqCst));
+key_impls!(CloneMut, |x: &CloneMut| x.0.get());
